@@ -1,5 +1,5 @@
 """Q5 (ledger persists what it compares), F1 (header/schema gate before the payload), W2 (tag tables)."""
-from .. import rx, wire
+from .. import bitprov, rx, wire
 from ..core import ob, rule, where
 from ..ir import callee, calls, children, peel, peel_block, walk
 from ..rx import ev
@@ -451,6 +451,29 @@ def w11(facts, tier):
             ok = any(x.get("k") == "Bin" and x["op"] == "Eq" and peel(x["r"]).get("int") == 1 for x in walk(f["body"]))
             if not ok:
                 bad.append("bool is not read as `byte == 1`")
+        proved = None
+        nm = f.get("name") or ""
+        if bad and (key.startswith("savefile::Serializer<") or key.startswith("savefile::Deserializer<")) and nm.split("_", 1)[-1] in bitprov.WIDTH \
+                and nm.split("_", 1)[-1] not in ("bool", "char"):
+            # arithmetic on the value: decide by exact bit provenance whether the composition is the identity
+            prim = nm.split("_", 1)[-1]
+            try:
+                be = bitprov.BitEval(facts)
+                if nm.startswith("write_"):
+                    same, bits = be.writer(f, prim)
+                    want = [("v", i) for i in range(bitprov.WIDTH[prim])]
+                else:
+                    same, bits = be.reader(f, prim)
+                    want = [("s", i) for i in range(bitprov.WIDTH[prim])]
+                if same:
+                    bad, proved = [], "composed from narrower pieces; bit provenance proves the identity (every bit of the value is bit i of the little-endian stream)"
+                else:
+                    bad = [f"bit provenance: {bitprov.describe(bits, want)}"]
+            except bitprov.Unknown:
+                pass
+        if proved:
+            yield ob(["C01", "C02", "C04"], "W11", key, "pass", where(f), proved, nontrivial=True)
+            continue
         yield ob(["C01", "C02", "C04"], "W11", key, "violation" if bad else "pass", where(f),
                  f"{key}: value-altering construct(s) {sorted(set(bad))}: a primitive no longer round-trips / is no longer encoded as documented" if bad
                  else "value passes unmodified between memory and the byte sink")
@@ -1444,64 +1467,107 @@ def q7(facts, tier):
       "record that carries no plaintext could be cut off without the reader noticing")
 def k8(facts, tier):
     from ..flow import parent_map
-    f = next((g for g in facts.fns.values() if g["crate"] == "savefile" and "CryptoWriter" in g["id"] and g["id"].endswith("::flush")), None)
-    if f is None:
-        return
-    pm = parent_map(f["body"])
-    n = 0
-    for x in walk(f["body"]):
-        if not (x.get("k") == "Call" and (callee(x) or "").endswith(("WriteBytesExt::write_u64", "WriteBytesExt>::write_u64"))):
-            continue
-        n += 1
-        loop = None
-        guards = []
-        chain = []
+    from .taint_rules import pat_binds
+    fns = [g for g in facts.fns.values() if g["crate"] == "savefile" and "CryptoWriter" in g["id"] and g.get("body")]
+    is_hdr = lambda x: x.get("k") == "Call" and (callee(x) or "").endswith(("WriteBytesExt::write_u64", "WriteBytesExt>::write_u64"))
+
+    def remaining_guard(c, about=None):
+        """`X.len() > y` / `!X.is_empty()` / `n > 0` (about: the guard must mention one of these variables)"""
+        c = peel_block(peel(c))
+        if c.get("k") == "Logic" and c["op"] == "And":
+            return remaining_guard(c["l"], about) or remaining_guard(c["r"], about)
+        hit = False
+        if c.get("k") == "Bin" and c["op"] in ("Gt", "Lt", "Ne"):
+            l, r = peel_block(peel(c["l"])), peel_block(peel(c["r"]))
+            if c["op"] == "Lt":
+                l, r = r, l
+            is_len = lambda e: e.get("k") == "Call" and (callee(e) or "").endswith("::len")
+            if is_len(l) and r.get("k") in ("Var", "Lit", "Const", "ConstBlock", "Path"):
+                hit = True
+            if l.get("k") == "Var" and r.get("k") == "Lit" and r.get("int") == 0:
+                hit = True      # `remaining > 0`
+        if c.get("k") == "Un" and c.get("op") == "Not":
+            e = peel_block(peel(c["e"]))
+            if e.get("k") == "Call" and (callee(e) or "").endswith("::is_empty"):
+                hit = True
+        if hit and about is not None:
+            return any(y.get("k") == "Var" and y.get("v") in about for y in walk(c))
+        return hit
+
+    def guards_above(pm, x, stop_at_loop):
+        guards, loop = [], None
         p, child = pm.get(id(x)), x
         while p is not None:
-            if p.get("k") == "If" and any(child is y for y in [p["t"]]) :
+            if p.get("k") == "If" and child is p["t"]:
                 guards.append(p["c"])
-            if p.get("k") in ("Loop", "For"):
+            if p.get("k") in ("Loop", "For") and loop is None:
                 loop = p
-                break
+                if stop_at_loop:
+                    break
             child = p
             p = pm.get(id(p))
-        def remaining_guard(c):
-            c = peel_block(peel(c))
-            if c.get("k") == "Logic" and c["op"] == "And":
-                return remaining_guard(c["l"]) or remaining_guard(c["r"])
-            if c.get("k") == "Bin" and c["op"] in ("Gt", "Lt", "Ne"):
-                l, r = peel_block(peel(c["l"])), peel_block(peel(c["r"]))
-                if c["op"] == "Lt":
-                    l, r = r, l
-                is_len = lambda e: e.get("k") == "Call" and (callee(e) or "").endswith("::len")
-                if is_len(l) and r.get("k") in ("Var", "Lit"):
-                    return True
-                if l.get("k") == "Var" and r.get("k") == "Lit" and r.get("int") == 0:
-                    return True      # `remaining > 0`
-            if c.get("k") == "Un" and c.get("op") == "Not":
-                e = peel_block(peel(c["e"]))
-                if e.get("k") == "Call" and (callee(e) or "").endswith("::is_empty"):
-                    return True
-            return False
-        key = f"record-carries-plaintext#{n}"
-        if loop is None:
-            ok = any(remaining_guard(g) for g in guards)
-            yield ob(["C14", "C07"], "K8", key, "pass" if ok else "undecided", where(f, x),
-                     "the only record is written under a non-empty guard" if ok else "a record is written outside any loop: emptiness not established")
-            continue
-        if loop.get("k") == "For":
-            it = str(loop.get("iter"))
-            ok = "chunks" in it
-            yield ob(["C14", "C07"], "K8", key, "pass" if ok else "undecided", where(f, x),
-                     "records are written per non-empty chunk of the buffer" if ok else "iteration form not modelled")
-            continue
-        ok = any(remaining_guard(g) for g in guards)
-        yield ob(["C14", "C07"], "K8", key, "pass" if ok else "violation", where(f, x),
-                 f"{f['id']}: a record is written only while the buffer extends beyond the bytes already written" if ok else
-                 f"{f['id']}: inside its loop the record header is written without a check that unwritten plaintext remains: when the buffered "
-                 f"plaintext is an exact multiple of the chunk size an empty record is appended, and a file with that record cut off still "
-                 f"authenticates and loads")
+        return guards, loop
 
+    total = 0
+    for f in sorted(fns, key=lambda g: g["id"]):
+        pm = None
+        n = 0
+        for x in walk(f["body"]):
+            if not is_hdr(x):
+                continue
+            pm = pm or parent_map(f["body"])
+            n += 1
+            total += 1
+            guards, loop = guards_above(pm, x, True)
+            short = f["id"].rsplit("::", 1)[-1]
+            key = f"record-carries-plaintext#{n}" if short == "flush" else f"record-carries-plaintext:{short}#{n}"
+            if loop is None:
+                if any(remaining_guard(g) for g in guards):
+                    yield ob(["C14", "C07"], "K8", key, "pass", where(f, x), "the only record is written under a non-empty guard")
+                    continue
+                # a helper that seals what it is handed: every call site must establish that the data is not empty
+                sites = []
+                for g in fns:
+                    gpm = None
+                    for y in walk(g["body"]):
+                        if y.get("k") == "Call" and ((y.get("res") or {}).get("fn") or y.get("fn")) == f["id"]:
+                            gpm = gpm or parent_map(g["body"])
+                            sites.append((g, y, gpm))
+                if not sites or short == "flush":
+                    yield ob(["C14", "C07"], "K8", key, "undecided", where(f, x), "a record is written outside any loop: emptiness not established")
+                    continue
+                badsite = None
+                for g, y, gpm in sites:
+                    argvars = {z["v"] for a in y["args"][1:] for z in walk(a) if z.get("k") == "Var"}
+                    # variables the argument was split off from (`let (chunk, tail) = rest.split_at(..)`)
+                    for s_ in walk(g["body"]):
+                        if s_.get("k") == "LetS" and s_.get("init") is not None and {b["v"] for b in pat_binds(s_["pat"])} & argvars:
+                            argvars |= {z["v"] for z in walk(s_["init"]) if z.get("k") == "Var"}
+                    gs, _ = guards_above(gpm, y, False)
+                    if not any(remaining_guard(c, argvars) for c in gs):
+                        badsite = (g, y)
+                        break
+                if badsite:
+                    g, y = badsite
+                    yield ob(["C14", "C07"], "K8", key, "violation", where(g, y),
+                             f"{g['id']} hands {f['id']} data that no enclosing condition shows to be non-empty, and {short} writes a record header "
+                             f"unconditionally: when the data ends exactly at a chunk boundary an empty record is appended, and a file with that record "
+                             f"cut off still authenticates and loads")
+                else:
+                    yield ob(["C14", "C07"], "K8", key, "pass", where(f, x), f"every call of {short} is guarded by a length check on the data it is handed")
+                continue
+            if loop.get("k") == "For":
+                it = str(loop.get("iter"))
+                ok = "chunks" in it
+                yield ob(["C14", "C07"], "K8", key, "pass" if ok else "undecided", where(f, x),
+                         "records are written per non-empty chunk of the buffer" if ok else "iteration form not modelled")
+                continue
+            ok = any(remaining_guard(g) for g in guards)
+            yield ob(["C14", "C07"], "K8", key, "pass" if ok else "violation", where(f, x),
+                     f"{f['id']}: a record is written only while the buffer extends beyond the bytes already written" if ok else
+                     f"{f['id']}: inside its loop the record header is written without a check that unwritten plaintext remains: when the buffered "
+                     f"plaintext is an exact multiple of the chunk size an empty record is appended, and a file with that record cut off still "
+                     f"authenticates and loads")
 
 
 # ---------------------------------------------------------------------------------------------
@@ -1901,3 +1967,162 @@ def k10(facts, tier):
              f"all {len(reads)} values read from the nonce header are stored in the nonce state" if not lost else
              f"RandomNonceSequence::deserialize reads `{(callee(lost[0]) or '').rsplit('::', 1)[-1]}` from the header and does not store it in the nonce "
              f"state: those header bytes no longer influence decryption, so a file with exactly those bytes modified is accepted")
+
+
+# ---------------------------------------------------------------------------------------------
+# X5: process-wide / thread-wide state on save and load paths
+
+X5_ALLOWED_STATE = {
+    "savefile::STRING_IS_STANDARD_LAYOUT": "memo of a probe whose answer is a constant of the process (no parameter)",
+    "savefile::QUICKCHECKBOUND": "quickcheck generators only (test feature)",
+    "savefile::THE_NULL_INTROSPECTABLE": "immutable unit value",
+}
+_MAP_READ = ("::get", "::contains_key", "::get_mut", "::entry", "::get_or_insert_with")
+_MAP_WRITE = ("::insert", "::entry", "::or_insert", "::or_insert_with", "::get_or_insert_with")
+
+
+def _x5_state_name(x):
+    for y in walk(x):
+        i = y.get("id")
+        if isinstance(i, str) and i.startswith("savefile::") and y.get("k") in ("Static", "Const", "ConstBlock", "Path", "ZstLit", "Item"):
+            return i.split("::{")[0]
+    return None
+
+
+def _x5_deps(e, f, params, seen=None):
+    """parameters of f that the expression depends on, through let-bindings of f and the closures written in it"""
+    from .taint_rules import pat_binds
+    seen = seen if seen is not None else set()
+    out = set()
+    for y in walk(e):
+        if y.get("k") == "Var":
+            v = y["v"]
+            if v in params:
+                out.add(v.split("#")[0])
+            elif v not in seen:
+                seen.add(v)
+                for s_ in f["_all_lets"]:
+                    if any(b["v"] == v for b in pat_binds(s_["pat"])) and s_.get("init") is not None:
+                        out |= _x5_deps(s_["init"], f, params, seen)
+        if y.get("k") == "Call":
+            for t in y.get("targs") or []:
+                if isinstance(t, str) and t in (f.get("generics") or []):
+                    out.add("type " + t)
+            if y.get("self_ty") in (f.get("generics") or []):
+                out.add("type " + y["self_ty"])
+    return out
+
+
+@rule("X5", ["C18", "C13", "C01", "C03"], floor=0, doc="saving and loading are functions of their arguments: a library function that touches process-wide or "
+      "thread-wide state (static, thread_local) either is on the reviewed list, or uses it as a memo whose key contains every parameter "
+      "the memoised value depends on, or as a counter that is restored on every exit (including `?`); anything else makes the outcome of a "
+      "save / load depend on what the thread did before")
+def x5(facts, tier):
+    P = ["C18", "C13", "C01", "C03"]
+    from ..flow import parent_map
+    n_state = 0
+    for f in sorted(facts.fns_of_crate("savefile"), key=lambda g: g["id"]):
+        body = f.get("body")
+        if not body or "::{inlineconst" in f["id"] or "::{constant" in f["id"] or f.get("kind") == "Closure":
+            continue
+        # the function together with the closures written in it
+        parts = [f]
+        stack = [body]
+        while stack:
+            b = stack.pop()
+            for y in walk(b):
+                if y.get("k") == "Closure" and facts.fns.get(y["id"]) and facts.fns[y["id"]] not in parts:
+                    parts.append(facts.fns[y["id"]])
+                    stack.append(facts.fns[y["id"]]["body"])
+        states = {}
+        for g in parts:
+            for x in walk(g["body"]):
+                if x.get("k") == "Call" and "thread::local::LocalKey" in (callee(x) or "") and not (callee(x) or "").endswith("::new"):
+                    nm = _x5_state_name(x["args"][0]) if x.get("args") else None
+                    states.setdefault(nm or "thread-local", []).append((g, x))
+                if x.get("k") == "Static" and str(x.get("id", "")).startswith("savefile::") and "__RUST_STD_INTERNAL" not in x["id"]:
+                    states.setdefault(x["id"], []).append((g, x))
+        for nm, uses in sorted(states.items(), key=lambda kv: str(kv[0])):
+            if nm in X5_ALLOWED_STATE:
+                continue
+            n_state += 1
+            key = f"{f['id']}:{nm}"
+            params = {p["pat"]["v"] for p in f.get("params", []) if (p.get("pat") or {}).get("k") == "Bind"}
+            f["_all_lets"] = [s_ for g in parts for s_ in walk(g["body"]) if s_.get("k") == "LetS"]
+            allcalls = [y for g in parts for y in walk(g["body"]) if y.get("k") == "Call"]
+            reads = [y for y in allcalls if (callee(y) or "").endswith(_MAP_READ) and ("HashMap" in (callee(y) or "") or "BTreeMap" in (callee(y) or ""))]
+            writes = [y for y in allcalls if (callee(y) or "").endswith(_MAP_WRITE) and ("HashMap" in (callee(y) or "") or "BTreeMap" in (callee(y) or "")
+                                                                                        or "Entry" in (callee(y) or ""))]
+            if reads and writes:
+                kdeps, vdeps = set(), set()
+                for y in reads + [w for w in writes if (callee(w) or "").endswith(("::insert", "::entry"))]:
+                    if len(y["args"]) >= 2:
+                        kdeps |= _x5_deps(y["args"][1], f, params)
+                for w in writes:
+                    c = callee(w) or ""
+                    if c.endswith("::insert") and len(w["args"]) >= 3:
+                        vdeps |= _x5_deps(w["args"][2], f, params)
+                    elif c.endswith(("or_insert", "or_insert_with", "get_or_insert_with")) and len(w["args"]) >= 2:
+                        vdeps |= _x5_deps(w["args"][-1], f, params)
+                        cl = peel(w["args"][-1])
+                        if cl.get("k") == "Closure" and facts.fns.get(cl["id"]):
+                            vdeps |= _x5_deps(facts.fns[cl["id"]]["body"], f, params)
+                missing = sorted(d for d in vdeps - kdeps if d != "self")
+                f.pop("_all_lets", None)
+                yield ob(P, "X5", key, "violation" if missing else "pass", where(f, uses[0][1]),
+                         f"{f['id']} memoises a value in {nm} under a key that does not contain {', '.join('`' + m + '`' for m in missing)}, on which the "
+                         f"value depends: the value computed for the first call is returned for later calls with a different {missing[0]} "
+                         f"(e.g. the schema of another version is stored in the file)" if missing else
+                         f"memo in {nm}: the key covers every parameter the value depends on ({sorted(vdeps)})")
+                continue
+            # counter: increments must be undone on every exit
+            incs, decs = [], []
+            for g in parts:
+                for y in walk(g["body"]):
+                    if y.get("k") == "Call":
+                        c = (callee(y) or "").rsplit("::", 1)[-1]
+                        if c in ("fetch_add",):
+                            incs.append((g, y))
+                        elif c in ("fetch_sub",):
+                            decs.append((g, y))
+                        elif c in ("set", "replace") and len(y.get("args", [])) == 2:
+                            a = peel_block(peel(y["args"][1]))
+                            if a.get("k") == "Bin" and a.get("op") == "Add":
+                                incs.append((g, y))
+                            elif a.get("k") == "Bin" and a.get("op") == "Sub":
+                                decs.append((g, y))
+            f.pop("_all_lets", None)
+            if incs:
+                # position of the state-touching statements in f's own body (a closure's uses count at the call that contains it)
+                def line(gy):
+                    return gy[1].get("ln") or 0
+                first_inc = min(line(i) for i in incs)
+                declines = sorted(line(d) for d in decs)
+                exits = [y for y in walk(body) if y.get("k") in ("Try", "Return") and (y.get("ln") or 0) > first_inc]
+                pm = parent_map(body)
+                leaked = None
+                for e_ in exits:
+                    # a return is fine when a decrement stands before it in the same block; a `?` has no such block
+                    ok = False
+                    if e_.get("k") == "Return":
+                        p_, ch = pm.get(id(e_)), e_
+                        while p_ is not None and p_.get("k") != "Block":
+                            ch, p_ = p_, pm.get(id(p_))
+                        if p_ is not None:
+                            before = [s_ for s_ in p_.get("stmts", []) if (s_.get("ln") or 0) <= (e_.get("ln") or 0)]
+                            ok = any(any(line((None, z)) in declines and z.get("k") == "Call" for z in walk(s_)) for s_ in before)
+                    if not ok:
+                        leaked = e_
+                        break
+                has_guard = any(y.get("k") == "Adt" and any(h.get("trait") == "core::ops::drop::Drop" and h.get("self_ty") == y.get("ty")
+                                                             for h in facts.impls) for y in walk(body))
+                if leaked is not None and not has_guard:
+                    yield ob(P, "X5", key, "violation", where(f, leaked),
+                             f"{f['id']} raises the counter {nm} and leaves through `{'?' if leaked['k'] == 'Try' else 'return'}` (line {leaked.get('ln')}) "
+                             f"without lowering it again: every failed call leaks one level, and after enough failures on a thread every later call "
+                             f"fails (or the limit is never enforced) although its input is fine")
+                else:
+                    yield ob(P, "X5", key, "pass", where(f, uses[0][1]), f"counter {nm} is restored on every exit")
+                continue
+            yield ob(P, "X5", key, "undecided", where(f, uses[0][1]), f"{f['id']} uses shared state {nm} in a way that is neither a memo nor a counter")
+    yield ob(P, "X5", "inventory", "pass", "", f"{n_state} use(s) of crate-owned shared state outside the reviewed list", nontrivial=False)
